@@ -226,7 +226,12 @@ pub fn run_c01(outdir: &str, seed: u64, thorough: bool) -> serde_json::Value {
         attempts += 1;
         let mut r = rng.fork();
         let pinned = attempts == 1;
-        let sql = if pinned || r.chance(1, 6) { let k = if pinned { 5 } else { r.range(1, 6) }; format!("SELECT SUM(x.amount) AS s FROM (SELECT t.amount AS amount FROM orders AS t ORDER BY t.amount DESC LIMIT {}) AS x", k) } else { gen_agg_query(&mut r) };
+        // joins of two tracked relations on an attribute that is not the unit (rows of different units can match)
+        let attr_joins = ["SELECT COUNT(a.id) AS n FROM users AS a JOIN users AS b ON a.city = b.city", "SELECT SUM(o.amount) AS s FROM orders AS o JOIN orders AS p ON o.status = p.status",
+            "SELECT a.city AS k, SUM(b.income) AS s FROM users AS a JOIN users AS b ON a.age = b.age GROUP BY a.city", "SELECT COUNT(o.id) AS n, SUM(u.income) AS s FROM orders AS o JOIN users AS u ON o.id = u.age",
+            "SELECT SUM(i.price) AS s FROM items AS i JOIN orders AS o ON i.qty = o.user_id"];
+        let sql = if pinned || r.chance(1, 6) { let k = if pinned { 5 } else { r.range(1, 6) }; format!("SELECT SUM(x.amount) AS s FROM (SELECT t.amount AS amount FROM orders AS t ORDER BY t.amount DESC LIMIT {}) AS x", k) }
+            else if r.chance(1, 7) { st.bump("attribute_join_queries"); r.pick(&attr_joins).to_string() } else { gen_agg_query(&mut r) };
         // the number of groups per unit is not capped (the cap draws RANDOM() ranks, which two executions do not share)
         let p: DpParameters = if pinned { DpParameters::from_epsilon_delta(1.0, 1e-5) } else { let q = gen_params(&mut r);
             DpParameters::new(q.epsilon, q.delta, q.tau_thresholding_share, q.privacy_unit_max_multiplicity, q.privacy_unit_max_multiplicity_share, 1000) };
@@ -435,7 +440,7 @@ pub fn run_c09(outdir: &str, seed: u64, thorough: bool) -> serde_json::Value {
 
 // ---------------------------------------------------------------- C04
 /// inverse of the standard normal CDF (Acklam), independent of statrs
-fn inv_norm(p: f64) -> f64 {
+pub fn inv_norm(p: f64) -> f64 {
     let a = [-3.969683028665376e+01, 2.209460984245205e+02, -2.759285104469687e+02, 1.383577518672690e+02, -3.066479806614716e+01, 2.506628277459239e+00];
     let b = [-5.447609879822406e+01, 1.615858368580409e+02, -1.556989798598866e+02, 6.680131188771972e+01, -1.328068155288572e+01];
     let c = [-7.784894002430293e-03, -3.223964580411365e-01, -2.400758277161838e+00, -2.549732539343734e+00, 4.374664141464968e+00, 2.938163982698783e+00];
